@@ -285,27 +285,230 @@ fn ToPrimitive__to_@T@(&self) -> /*@{*/(r: /*}@*/Option<@T@>/*@{*/)/*}@*/
 }
 """
 
+LEMMAS_FROM_U = r"""
+//! proof bn_lemma_numtraits_trunc_@T@
+pub proof fn bn_lemma_numtraits_trunc_@T@(y: @T@)
+    ensures (y as $D) as int == (y as int) % pow2($DB) as int
+{
+    bn_lemma_bits_pow2_db();
+    assert((y as $D) as u128 == (y as u128) % ${BASE}u128) by (bit_vector);
+}
+//! proof bn_lemma_numtraits_digit_of_@T@
+// digit i of x: ((x >> i*DB) as digit) = (x / 2^(i*DB)) % 2^DB, and the base-2^DB expansion step
+pub proof fn bn_lemma_numtraits_digit_of_@T@(x: @T@, s: @T@)
+    requires @TB@ > s as int
+    ensures x as int % pow2(s as nat + $DB) as int == x as int % pow2(s as nat) as int + (((x >> s) as $D) as int) * pow2(s as nat),
+        x as int % pow2(s as nat) as int >= 0, pow2(s as nat) > 0
+{
+    vstd::bits::lemma_@T@_shr_is_div(x, s);
+    lemma_pow2_pos(s as nat);
+    lemma_pow2_pos($DB);
+    let y = x >> s;
+    let p = pow2(s as nat) as int;
+    let b = pow2($DB) as int;
+    bn_lemma_numtraits_trunc_@T@(y);
+    let d = (y as $D) as int;
+    assert(d == (x as int / p) % b);
+    lemma_pow2_adds(s as nat, $DB);
+    lemma_mod_breakdown(x as int, p, b);
+    lemma_mod_bound(x as int, p);
+    lemma_mul_is_commutative(p, d);
+}
+"""
+
+BU_FROM_U = r"""
+//! fn impl(FromPrimitivefor$BUint<N>)::from_@T@ [ext_trait]
+fn FromPrimitive__from_@T@(int__: @T@) -> /*@{*/(r: /*}@*/Option<Self>/*@{*/)/*}@*/
+    /*@{*/ requires bn_wf(N)
+    ensures (r is Some) == (Self::bn_m() > int__ as int), r matches Some(v) ==> v@ == int__ as int /*}@*/
+{
+    let UINT_BITS: usize = @T@::BITS as usize;
+    let mut out = $BUint::ZERO();
+    let mut i = 0;
+    /*@{*/ proof { lemma2_to64(); lemma_small_mod(0, 1); assert(int__ as int % 1 == 0); } /*}@*/
+    while i << crate::digit::$D::BIT_SHIFT < UINT_BITS
+        /*@{*/ invariant UINT_BITS == @TB@, bn_wf(N), i * $DB <= @TB@ + $DB, i <= @TB@,
+            forall|j: int| i <= j < N ==> out.digits[j] == 0,
+            bn_val(out.digits@, N as nat) == int__ as int % pow2((i * $DB) as nat) as int
+        decreases @TB@ + $DB - i * $DB /*}@*/
+    {
+        let d = (int__ >> (i << crate::digit::$D::BIT_SHIFT)) as $D;
+        /*@{*/ let ghost p = pow2((i * $DB) as nat) as int;
+        proof {
+            vstd::bits::lemma_usize_shl_is_mul(i, ${LOGDB}usize);
+            bn_lemma_numtraits_digit_of_@T@(int__, (i * $DB) as @T@);
+            assert((i * $DB) as nat + $DB == ((i + 1) * $DB) as nat) by (nonlinear_arith) requires i >= 0;
+            bn_lemma_bits_bp_pow2(i as nat);
+            assert($DB * i == i * $DB) by (nonlinear_arith);
+            assert(bn_bp(i as nat) == p);
+            assert(int__ as int % pow2(((i + 1) * $DB) as nat) as int == int__ as int % p + d as int * p);
+            if d == 0 { assert(d as int * p == 0) by (nonlinear_arith) requires d == 0; }
+        } /*}@*/
+        if d != 0 {
+            if i < N {
+                /*@{*/ proof {
+                    bn_lemma_val_update(out.digits@, i as int, d, N as nat);
+                    assert(out.digits[i as int] as int * bn_bp(i as nat) == 0) by (nonlinear_arith) requires out.digits[i as int] == 0;
+                } /*}@*/
+                out.digits[i] = d;
+            } else {
+                /*@{*/ proof {
+                    // int__ >= 2^(i*DB) * d >= bp(i) >= bp(N)
+                    assert((d as int) * p >= p) by (nonlinear_arith) requires d >= 1, p > 0;
+                    lemma_pow2_pos(((i + 1) * $DB) as nat);
+                    bn_lemma_numtraits_mod_le(int__ as int, pow2(((i + 1) * $DB) as nat) as int);
+                    if i > N { lemma_pow_increases(bn_base() as nat, N as nat, i as nat); }
+                } /*}@*/
+                return None;
+            }
+        }
+        i += 1;
+    }
+    /*@{*/ proof {
+        vstd::bits::lemma_usize_shl_is_mul(i, ${LOGDB}usize);
+        bn_lemma_numtraits_pow2_@TB@();
+        if i * $DB > @TB@ { lemma_pow2_strictly_increases(@TB@, (i * $DB) as nat); }
+        lemma_small_mod(int__ as nat, pow2((i * $DB) as nat));
+        bn_lemma_val_upto_bound(out.digits@, N as nat);
+    } /*}@*/
+    Some(out)
+}
+"""
+
+BU_FROM_S = r"""
+//! fn impl(FromPrimitivefor$BUint<N>)::from_@T@ [ext_trait extcall=from_@U@:FromPrimitive__from_@U@]
+fn FromPrimitive__from_@T@(@ARG@: @T@) -> /*@{*/(r: /*}@*/Option<Self>/*@{*/)/*}@*/
+    /*@{*/ requires bn_wf(N)
+    ensures (r is Some) == (0 <= @ARG@ as int && Self::bn_m() > @ARG@ as int), r matches Some(v) ==> v@ == @ARG@ as int /*}@*/
+{
+    match @U@::try_from(@ARG@) {
+        Ok(@ARG@) => Self::FromPrimitive__from_@U@(@ARG@),
+        _ => None,
+    }
+}
+"""
+
+BI_FROM_U = r"""
+//! fn impl(FromPrimitivefor$BInt<N>)::from_@T@ [ext_trait extcall=Signed::is_negative:Signed__is_negative]
+fn FromPrimitive__from_@T@(n: @T@) -> /*@{*/(r: /*}@*/Option<Self>/*@{*/)/*}@*/
+    /*@{*/ requires bn_wf(N)
+    ensures (r is Some) == (Self::bn_m() > 2 * (n as int)), r matches Some(v) ==> v@ == n as int /*}@*/
+{
+    let UINT_BITS: usize = <@T@>::BITS as usize;
+    let mut out = Self::ZERO();
+    let mut i = 0;
+    /*@{*/ proof { lemma2_to64(); lemma_small_mod(0, 1); assert(n as int % 1 == 0); bn_lemma_sval_twos(out.bits.digits@, N as nat); bn_lemma_bp_pos(N as nat);
+        bn_lemma_numtraits_zero_digits(out.bits.digits@, N as nat); } /*}@*/
+    while i << crate::digit::$D::BIT_SHIFT < UINT_BITS
+        /*@{*/ invariant UINT_BITS == @TB@, bn_wf(N), i * $DB <= @TB@ + $DB, i <= @TB@,
+            forall|j: int| i <= j < N ==> out.bits.digits[j] == 0,
+            bn_val(out.bits.digits@, N as nat) == n as int % pow2((i * $DB) as nat) as int
+        decreases @TB@ + $DB - i * $DB /*}@*/
+    {
+        let d = (n >> (i << crate::digit::$D::BIT_SHIFT)) as $D;
+        /*@{*/ let ghost p = pow2((i * $DB) as nat) as int;
+        proof {
+            vstd::bits::lemma_usize_shl_is_mul(i, ${LOGDB}usize);
+            bn_lemma_numtraits_digit_of_@T@(n, (i * $DB) as @T@);
+            assert((i * $DB) as nat + $DB == ((i + 1) * $DB) as nat) by (nonlinear_arith) requires i >= 0;
+            bn_lemma_bits_bp_pow2(i as nat);
+            assert($DB * i == i * $DB) by (nonlinear_arith);
+            assert(bn_bp(i as nat) == p);
+            assert(n as int % pow2(((i + 1) * $DB) as nat) as int == n as int % p + d as int * p);
+            if d == 0 { assert(d as int * p == 0) by (nonlinear_arith) requires d == 0; }
+        } /*}@*/
+        if d != 0 {
+            if i < N {
+                /*@{*/ proof {
+                    bn_lemma_val_update(out.bits.digits@, i as int, d, N as nat);
+                    assert(out.bits.digits[i as int] as int * bn_bp(i as nat) == 0) by (nonlinear_arith) requires out.bits.digits[i as int] == 0;
+                } /*}@*/
+                out.bits.digits[i] = d;
+            } else {
+                /*@{*/ proof {
+                    assert((d as int) * p >= p) by (nonlinear_arith) requires d >= 1, p > 0;
+                    lemma_pow2_pos(((i + 1) * $DB) as nat);
+                    bn_lemma_numtraits_mod_le(n as int, pow2(((i + 1) * $DB) as nat) as int);
+                    if i > N { lemma_pow_increases(bn_base() as nat, N as nat, i as nat); }
+                    bn_lemma_bp_pos(N as nat);
+                } /*}@*/
+                return None;
+            }
+        }
+        i += 1;
+    }
+    /*@{*/ proof {
+        vstd::bits::lemma_usize_shl_is_mul(i, ${LOGDB}usize);
+        bn_lemma_numtraits_pow2_@TB@();
+        if i * $DB > @TB@ { lemma_pow2_strictly_increases(@TB@, (i * $DB) as nat); }
+        lemma_small_mod(n as nat, pow2((i * $DB) as nat));
+        bn_lemma_val_upto_bound(out.bits.digits@, N as nat);
+        bn_lemma_sval_twos(out.bits.digits@, N as nat);
+    } /*}@*/
+    if Self::Signed__is_negative(&out) {
+        None
+    } else {
+        Some(out)
+    }
+}
+"""
+
 def inst(t, T, TB):
     return t.replace('@TB@', str(TB)).replace('@T@', T).replace('@HALFM1@', HALFM1[TB])
 
 
 print('//! raw bn_numtraits_conv_note')
 print('// numtraits_conv.vrs is GENERATED by overlay/scripts/gen_numtraits_conv.py -- re-run the script instead of editing.')
-only = sys.argv[1:]
+only = sys.argv[1:]   # developer aid: restrict the fn entries (lemmas are always emitted), e.g. `to_u32 from_u64`
+
+
+def want(name):
+    return not only or name in only
+
+
+MOD_LE = '''//! proof bn_lemma_numtraits_mod_le
+pub proof fn bn_lemma_numtraits_mod_le(x: int, m: int)
+    requires x >= 0, m > 0
+    ensures x % m <= x
+{
+    lemma_fundamental_div_mod(x, m);
+    lemma_mod_bound(x, m);
+    let q = x / m;
+    if q < 0 { assert(m * q <= -m) by (nonlinear_arith) requires q <= -1, m > 0; }
+    assert(m * q >= 0) by (nonlinear_arith) requires q >= 0, m > 0;
+}
+'''
+w = sys.stdout.write
 for T, TB in UT:
-    if only and T not in only:
-        continue
-    sys.stdout.write(inst(LEMMAS_U, T, TB).lstrip('\n'))
-for T, TB in UT:
-    if only and T not in only:
-        continue
-    sys.stdout.write(inst(BU_TO_U, T, TB).lstrip('\n'))
-for T, TB in UT:
-    if only and T not in only:
-        continue
-    sys.stdout.write(inst(BI_TO_U, T, TB).lstrip('\n'))
+    w(inst(LEMMAS_U, T, TB).lstrip('\n'))
 for T, U, TB in ST:
-    if only and T not in only:
-        continue
-    sys.stdout.write(inst(LEMMAS_S, T, TB).replace('@U@', U).replace('@HALF@', HALF[TB]).lstrip('\n'))
-    sys.stdout.write(inst(BU_TO_S, T, TB).replace('@U@', U).lstrip('\n'))
+    w(inst(LEMMAS_S, T, TB).replace('@U@', U).replace('@HALF@', HALF[TB]).lstrip('\n'))
+w(MOD_LE)
+for T, TB in UT:
+    w(inst(LEMMAS_FROM_U, T, TB).lstrip('\n'))
+for T, TB in UT:
+    if want('to_' + T):
+        w(inst(BU_TO_U, T, TB).lstrip('\n'))
+        w(inst(BI_TO_U, T, TB).lstrip('\n'))
+for T, U, TB in ST:
+    if want('to_' + T):
+        w(inst(BU_TO_S, T, TB).replace('@U@', U).lstrip('\n'))
+for T, TB in UT[3:]:
+    if want('from_' + T):
+        w(inst(BU_FROM_U, T, TB).lstrip('\n'))
+for T, U, TB, ARG in [('i64', 'u64', 64, 'int__'), ('i128', 'u128', 128, 'n')]:
+    if want('from_' + T):
+        w(inst(BU_FROM_S, T, TB).replace('@U@', U).replace('@ARG@', ARG).lstrip('\n'))
+w('''//! proof bn_lemma_numtraits_zero_digits
+pub proof fn bn_lemma_numtraits_zero_digits(d: Seq<$D>, n: nat)
+    requires bn_val(d, n) == 0
+    ensures forall|j: int| 0 <= j < n ==> d[j] == 0
+{
+    assert forall|j: int| 0 <= j < n implies d[j] == 0 by {
+        if d[j] != 0 { bn_lemma_val_pos(d, n, j); bn_lemma_bp_pos(j as nat); }
+    }
+}
+''')
+for T, TB in UT:
+    if want('from_' + T):
+        w(inst(BI_FROM_U, T, TB).lstrip('\n'))
